@@ -297,6 +297,8 @@ def e2e_case(draw, broker):
     # a second job, enqueued over another connection after the first one was executed; with bucket transport it re-uses the
     # first job's explicit args_id (the documented way of sharing / replacing stored arguments)
     c["second"] = draw(st.one_of(st.none(), st.dictionaries(ARG_KEYS, rich_value, min_size=1, max_size=3)))
+    # the consumer replaces the message it holds (requeue with a corrected payload): the next delivery carries the new one
+    c["requeue"] = draw(st.one_of(st.none(), st.none(), st.dictionaries(ARG_KEYS, st.integers(-9, 9), min_size=1, max_size=3)))
     if broker != "mem":
         c["lat"] = draw(st.lists(st.sampled_from([0.0, 0.001]), max_size=6))
     return c
@@ -373,6 +375,23 @@ async def _e2e(loop, c, out: Outcome):
                 out.v("payload-normal-form", f"payload {resolved!r} does not decode to the normalised arguments {normalise(args)!r}")
         except Exception as e:  # noqa: BLE001
             out.v("payload-normal-form", f"payload {resolved!r} is not JSON: {e}")
+    requeued = None
+    if c.get("requeue") is not None and not (c["bucket"] and args is not None):
+        requeued = json.dumps(c["requeue"])
+        await b.requeue(key, requeued, params)
+        try:
+            key2, payload2, params2 = await asyncio.wait_for(cons.consume(), timeout=3.0)
+        except asyncio.TimeoutError:
+            out.v("not-delivered", f"requeued job was not delivered within 3 s; places {[p.short() for p in env.probe().get(c['id'], [])]}")
+            await cons.finish()
+            return
+        if payload2 != requeued:
+            out.v("consumed-payload", f"after requeue with payload {requeued!r} the consumer received {payload2!r}", broker=c["broker"],
+                  requeue=True)
+        if params2 != params or (key2.id_, key2.topic, key2.queue, key2.priority) != (key.id_, key.topic, key.queue, key.priority):
+            out.v("consumed-params", f"after requeue: key/parameters differ: {key2} {params2} vs {key} {params}", broker=c["broker"], requeue=True)
+        key = key2
+        out.cls("requeued-new-payload")
     await b.reject(key)
     await cons.finish()
     await asyncio.sleep(0.15)
@@ -391,6 +410,8 @@ async def _e2e(loop, c, out: Outcome):
         out.v("not-executed", "worker did not execute the job within 20 s")
         return
     expected = {} if args is None else normalise(args)
+    if requeued is not None:
+        expected = c["requeue"]
     if len(got) != 1:
         out.v("not-executed", f"actor ran {len(got)} times")
     elif isinstance(expected, dict) and got[0] != expected:
